@@ -187,7 +187,7 @@ def conds(tier):
                        fixed={"m": m, "n": n, "mark": 0, "bare": False, "preset": 0}, pre=[e1_wf_expr(m, n), "t == 7 or not relc"],
                        shard=["t"] + (["w1"] if m * n >= 9 else []) + (["lp1"] if m * n >= 12 else []),
                        timeout=600 if q else 3000, functions=FUNCS[6:9]))
-    sshapes = [(1, 1), (2, 1), (2, 2), (2, 3), (3, 3)] if q else [(1, 1), (2, 1), (3, 1), (2, 2), (2, 3), (3, 3), (3, 4)]
+    sshapes = [(1, 1), (2, 1), (2, 2), (2, 3), (3, 3)] if q else [(1, 1), (2, 1), (3, 1), (2, 2), (2, 3), (3, 3)]
     for (m, n) in sshapes:
         ne = 1 if (q or m * n >= 12) else min(m + n - 1, 3)
         es = [P("e%d" % j, "int", 0, 3) for j in range(1, ne + 1)]
@@ -205,7 +205,7 @@ def conds(tier):
                        (["lp2"] if m * n >= 16 else []),
                        timeout=600 if q else 3000, functions=FUNCS[:5]))
     # programs
-    for (m, n, L, nw) in ([(2, 2, 2, 2), (2, 3, 2, 1)] if q else [(2, 3, 2, 2), (3, 3, 2, 2), (2, 3, 3, 1), (3, 4, 2, 1)]):
+    for (m, n, L, nw) in ([(2, 2, 2, 2), (2, 3, 2, 1)] if q else [(2, 3, 2, 2), (3, 3, 2, 1), (2, 2, 3, 1)]):
         ts = [P("t%d" % i, "int", 0, 12) for i in range(1, L + 1)]
         ws = [P("w%d" % j, "int", 0, nw) for j in range(1, n + 1)] if nw > 1 else []
         cs.append(Cond("seq%d-m%d-n%d" % (L, m, n), "harness.c04:seq", e1_params(m, n) + ws + ts,
